@@ -382,8 +382,8 @@ func (c *Check) sortedBeforeUse(fn *ssa.Function, src ssa.Value, first ssa.Instr
 		if !(full == "sort.Slice" || full == "sort.SliceStable") || !(exit == call.Block() || blockReaches(exit, call.Block())) {
 			continue
 		}
-		if mc, ok := call.Common().Args[1].(*ssa.MakeClosure); ok {
-			cmp := mc.Fn.(*ssa.Function)
+		if cmp := callbackFunc(call.Common().Args[1]); cmp != nil {
+			// a closure, or a method value (the method behind the bound wrapper)
 			okCmp := false
 			eachInstr(cmp, func(i ssa.Instruction) {
 				if b, ok := i.(*ssa.BinOp); ok && (b.Op == token.LSS || b.Op == token.GTR) && strings.HasSuffix(Sym(b.X), "."+keyField) && strings.HasSuffix(Sym(b.Y), "."+keyField) {
